@@ -479,28 +479,37 @@ fn check_stmt_requires_semicolon(
 ) -> bool {
     // Need to check next statement if it is a function call, with a parameters expression as the prefix
     // If so, removing a semicolon may lead to ambiguous syntax
-    // Ambiguous syntax can only occur if the current statement is a (Local)Assignment, FunctionCall or a Repeat block
-    match stmt {
+    // Ambiguous syntax can only occur if the current statement is a (Local)Assignment, FunctionCall, a Repeat block
+    // or a compound assignment: the statements which end with an expression
+    let ends_with_expression = match stmt {
         Stmt::Assignment(_)
         | Stmt::LocalAssignment(_)
         | Stmt::FunctionCall(_)
-        | Stmt::Repeat(_) => match next_stmt {
-            Some((Stmt::FunctionCall(function_call), _)) => match function_call.prefix() {
-                Prefix::Expression(expression) => {
-                    matches!(&**expression, Expression::Parentheses { .. })
-                }
-                _ => false,
-            },
-            Some((Stmt::Assignment(assignment), _)) => match assignment.variables().iter().next() {
-                Some(var) => var_has_parentheses(var),
-                _ => false,
-            },
-            #[cfg(feature = "luau")]
-            Some((Stmt::CompoundAssignment(compound_assignment), _)) => {
-                var_has_parentheses(compound_assignment.lhs())
+        | Stmt::Repeat(_) => true,
+        #[cfg(feature = "luau")]
+        Stmt::CompoundAssignment(_) => true,
+        _ => false,
+    };
+
+    if !ends_with_expression {
+        return false;
+    }
+
+    match next_stmt {
+        Some((Stmt::FunctionCall(function_call), _)) => match function_call.prefix() {
+            Prefix::Expression(expression) => {
+                matches!(&**expression, Expression::Parentheses { .. })
             }
             _ => false,
         },
+        Some((Stmt::Assignment(assignment), _)) => match assignment.variables().iter().next() {
+            Some(var) => var_has_parentheses(var),
+            _ => false,
+        },
+        #[cfg(feature = "luau")]
+        Some((Stmt::CompoundAssignment(compound_assignment), _)) => {
+            var_has_parentheses(compound_assignment.lhs())
+        }
         _ => false,
     }
 }
